@@ -1,7 +1,8 @@
 """C14 — frequency estimates never under-count, saturate safely and age by halving (structural premises).  (DESIGN §4 C14)"""
 from core import (strip_site, fmt, enum_paths, path_atoms, path_calls, mentions, subexprs, is_call_to, bool_branches,
-                  closure_captures, const_of, le_truth)
+                  closure_captures, const_of, le_truth, lt_truth, reaches_call)
 
+from sym import ipaths
 from iters import elem_loops, ELEM
 
 LEVEL = "other"
@@ -89,8 +90,10 @@ def run(ctx):
     # every halving mask used on the row's storage keeps the low three bits of EVERY nibble of its width (a wider,
     # word-at-a-time halving is fine as long as its mask is 0x77 replicated over the whole word)
     NIBBLES = {"u8": 2, "u16": 4, "u32": 8, "u64": 16, "usize": 16, "u128": 32}
-    scope = list(rfns)
-    for f in rfns:
+    # everything written in the row type's impl blocks (methods, associated helpers such as a named per-byte function) and
+    # their closures
+    scope = [f for n, f in F.fns.items() if f.kind != "Closure" and (f.rec.get("self_ty") or "") == row]
+    for f in list(scope):
         scope += F.closures_of(f)
     nmask = 0
     for g in scope:
@@ -230,6 +233,19 @@ def run(ctx):
             res = Lg.extra["result"]
             maps_get = all(len(q.calls({get_fn.name})) == 1 and strip_site(q.ret) == strip_site(q.calls({get_fn.name})[0].res) for q in Lg.bodies)
             okm = maps_get and r[0] == "call" and r[1].endswith("Option::<T>::unwrap_or") and strip_site(r[2][0]) == strip_site(res) and r[2][1] == ("const", 255, "u8")
+        elif Lg.sink == "fold":
+            # map(|row| reading).fold(MAX, |min, x| if x < min { x } else { min })
+            init, fc = Lg.extra.get("fold_init"), Lg.extra.get("fold_fn")
+            maps_get = all(len(q.calls({get_fn.name})) == 1 and strip_site(q.ret) == strip_site(q.calls({get_fn.name})[0].res) for q in Lg.bodies)
+            is_min = False
+            if fc is not None and fc[0] == "agg" and fc[1] in F.fns:
+                rows_ = set()
+                for q in ipaths(F, F.fns[fc[1]], stop=lambda n_: False, depth=1):
+                    lt = [lt_truth(a, lambda z: z == ("param", 3), lambda z: z == ("param", 2)) for a in q.atoms]
+                    lt = [x for x in lt if x is not None]
+                    rows_.add((lt[0] if lt else None, q.ret))
+                is_min = rows_ == {(True, ("param", 3)), (False, ("param", 2))}
+            okm = maps_get and is_min and init == ("const", 255, "u8") and strip_site(r) == strip_site(Lg.extra["result"])
         elif Lg.sink == "for_each":
             clo = p.op_origin(p.term(Lg.bb)["args"][1])
             cg = F.fn(clo[1]) if clo[0] == "agg" else None
@@ -268,24 +284,41 @@ def run(ctx):
     sk_inc = {L.fn.name for L in inc_sites}
     sk_est = {L.fn.name for L in get_sites}
     # (the bench-only proxies of the `bench_testable` feature forward to the sketch directly: not the cache's access path)
-    lfu = [f for n, f in F.fns.items() if f.kind != "Closure" and not n.startswith("cache::proxy::") and any(t.get("rpath") in sk_inc for b, t in f.calls())]
+    # ageing functions: zero a u64 field of self, halve the sketch (a reset function of R14.4) and clear the doorkeeper
+    age_fns = {}
+    for n, g in F.fns.items():
+        if g.kind == "Closure" or g.argc < 1:
+            continue
+        z = [x for x in g.stores() if x[2][0] == "field" and x[2][1] == ("param", 1) and x[3] == ("const", 0, "u64")]
+        hv = [1 for bb, tt in g.calls() if tt.get("rpath") in set(resets)]
+        cl = [1 for bb, tt in g.calls() if tt.get("rpath", "").endswith("DoorKeeper::clear")]
+        if z and hv:
+            age_fns[n] = z[0][2][2]
+            ctx.check(bool(cl) and len(z) == 1, "R14.6", "%s|reset-ages-everything" % n,
+                      "ageing zeroes the access counter, halves the sketch and clears the first-access filter", g.where())
+    dk_fns = {n for n in F.fns if n.endswith("::add_if_missing")}
+    opaque = lambda n: n in dk_fns or n in sk_inc or n in age_fns
+    cands = {}
+    for n, f in F.fns.items():
+        if f.kind == "Closure" or n.startswith("cache::proxy::") or f.argc < 2 or n in dk_fns or n in sk_inc or n in age_fns:
+            continue
+        if not reaches_call(F, f, "::add_if_missing", 2):
+            continue
+        ps = ipaths(F, f, stop=opaque, depth=2)
+        if ps and all(len(p.calls(dk_fns)) == 1 and p.calls(dk_fns)[0].args[1] == ("param", 2) for p in ps):
+            cands[n] = (f, ps)
+    lfu = [cands[n][0] for n in sorted(cands) if not any(t.get("rpath") == n for m in cands if m != n for b, t in cands[m][0].calls())]
     ctx.floor("R14.6", "access-recording functions (doorkeeper then sketch)", len(lfu), 1)
+    counter = None
     for f in lfu:
         ctx.touch(f)
         bad = []
         rows_seen = set()
-        counter = None
-        for p in enum_paths(f):
-            atoms = path_atoms(f, p)
-            calls = path_calls(f, p)
-            dk = [(b, t) for b, t in calls if t.get("rpath", "").endswith("add_if_missing")]
-            inc = [(b, t) for b, t in calls if t.get("rpath") in sk_inc]
-            rs = [(b, t) for b, t in calls if t["res"] == "item" and t.get("rlocal") and t.get("rpath") not in sk_inc and not t.get("rpath", "").endswith("add_if_missing")]
-            if len(dk) != 1:
-                bad.append("doorkeeper consulted %d times" % len(dk))
-                continue
-            added = f.origin_call(dk[0][0], dk[0][1])
-            a = [x for x in atoms if x[0] == "bool" and strip_site(x[1]) == strip_site(added)]
+        for p in cands[f.name][1]:
+            dk = p.calls(dk_fns)
+            inc = p.calls(sk_inc)
+            rs = p.calls(set(age_fns))
+            a = [x for x in p.atoms if x[0] == "bool" and strip_site(x[1]) == strip_site(dk[0].res)]
             if not a:
                 bad.append("doorkeeper result not branched on")
                 continue
@@ -293,15 +326,15 @@ def run(ctx):
                 bad.append("first access (newly added to the doorkeeper) also increments the sketch")
             if not a[0][2] and len(inc) != 1:
                 bad.append("repeated access increments the sketch %d times" % len(inc))
-            if inc and f.op_origin(inc[0][1]["args"][1]) != ("param", 2):
+            if inc and inc[0].args[1] != ("param", 2):
                 bad.append("sketch incremented for a different hash")
-            bumps = [x for x in f.stores() if x[0] in p and x[2][0] == "field" and x[2][1] == ("param", 1) and x[3][0] == "binop" and x[3][1] == "Add" and ("const", 1, "u64") in (x[3][2], x[3][3])]
+            bumps = [x for x in p.stores if x[0][0] == "field" and x[0][1] == ("param", 1) and x[1][0] == "binop" and x[1][1] == "Add" and ("const", 1, "u64") in (x[1][2], x[1][3])]
             if len(bumps) != 1:
                 bad.append("access counter bumped %d times on a path" % len(bumps))
                 continue
-            counter = bumps[0][2][2]
+            counter = bumps[0][0][2]
             cnt = ("field", ("param", 1), counter)
-            th = [le_truth(x, lambda z: z[0] == "field" and z[1] == ("param", 1) and z[2] != counter, lambda z: z == cnt) for x in atoms]
+            th = [le_truth(x, lambda z: z[0] == "field" and z[1] == ("param", 1) and z[2] != counter, lambda z: z == cnt) for x in p.atoms]
             th = [x for x in th if x is not None]
             if not th:
                 bad.append("threshold test counter >= reset_at missing")
@@ -309,29 +342,22 @@ def run(ctx):
             rows_seen.add((a[0][2], th[0]))
             if th[0] != (len(rs) == 1):
                 bad.append("reset must run iff the counter reached the threshold")
-            if th[0] and rs and p.index(rs[0][0]) < p.index(bumps[0][0]):
+            if th[0] and rs and rs[0].seq < bumps[0][2][3]:
                 bad.append("reset before counting the access")
+            if rs and age_fns.get(rs[0].callee) != counter:
+                bad.append("the ageing function zeroes another field than the access counter")
         ctx.check(not bad and len(rows_seen) == 4, "R14.6", "%s|doorkeeper-sketch-reset-table" % f.name,
                   "sketch incremented iff the doorkeeper already had the key; access counter += 1 on every path; counter >= threshold <=> reset (4 rows)", f.where(), "; ".join(sorted(set(bad))[:3]))
-        # the reset: zero counter, halve sketch, clear doorkeeper
-        for b, t in f.calls():
-            g = F.fns.get(t.get("rpath") or "")
-            if g is not None and t.get("rpath") not in sk_inc and not t.get("rpath", "").endswith("add_if_missing"):
-                z = [x for x in g.stores() if x[2] == ("field", ("param", 1), counter) and x[3] == ("const", 0, "u64")]
-                hv = [1 for bb, tt in g.calls() if tt.get("rpath") in set(resets)]
-                cl = [1 for bb, tt in g.calls() if tt.get("rpath", "").endswith("DoorKeeper::clear")]
-                ctx.check(bool(z) and bool(hv) and bool(cl), "R14.6", "%s|reset-ages-everything" % g.name,
-                          "ageing zeroes the access counter, halves the sketch and clears the first-access filter", g.where())
-        # threshold originates from the configured counters
-        thr = None
-        for n2, g in F.fns.items():
-            for b in sorted(g.live_blocks()):
-                for i, s in enumerate(g.blocks[b]["stmts"]):
-                    if s["k"] == "assign" and s["rv"]["k"] == "agg" and s["rv"].get("adt", "").endswith("TinyLFU"):
-                        e = dict(g.origin_rvalue(s["rv"])[3])
-                        thr = e.get("reset_counters_at")
-                        ctx.check(thr == ("param", 1) and e.get(counter) == ("const", 0, "u64"), "R14.6", "%s|threshold-is-configured-counters" % n2,
-                                  "the ageing threshold is the configured number of counters and the access counter starts at 0", g.where(b, i), fmt(thr))
+    # threshold originates from the configured counters
+    thr = None
+    for n2, g in F.fns.items():
+        for b in sorted(g.live_blocks()):
+            for i, s in enumerate(g.blocks[b]["stmts"]):
+                if s["k"] == "assign" and s["rv"]["k"] == "agg" and s["rv"].get("adt", "").endswith("TinyLFU"):
+                    e = dict(g.origin_rvalue(s["rv"])[3])
+                    thr = e.get("reset_counters_at")
+                    ctx.check(thr == ("param", 1) and e.get(counter) == ("const", 0, "u64"), "R14.6", "%s|threshold-is-configured-counters" % n2,
+                              "the ageing threshold is the configured number of counters and the access counter starts at 0", g.where(b, i), fmt(thr))
     est = [f for n, f in F.fns.items() if f.kind != "Closure" and any(t.get("rpath") in sk_est for b, t in f.calls()) and f.rec.get("ret") == "u8" and "TinyLFU" in f.locals[1]["ty"]]
     for f in est:
         bad = []
